@@ -78,19 +78,19 @@ Qed.
    carries a tag that verifies over all the rest under an algorithm of the channel (a stored token instance, the opening
    instance, or the asymmetric algorithm built from the sender certificate) — forged OPN chunks naming policy #None, plaintext
    MSG chunks, chunks for other tokens are all rejected. *)
-Fixpoint frames_state (un : bytes -> bool) (af : bytes -> bytes -> option algo) (st : fstate) (bs : list bytes) : fstate :=
-  match bs with [] => st | b :: r => frames_state un af (fst (read_frame un af true st b)) r end.
+Fixpoint frames_state (un : bytes -> bool) (cc : bytes -> N) (af : bytes -> bytes -> option algo) (st : fstate) (bs : list bytes) : fstate :=
+  match bs with [] => st | b :: r => frames_state un cc af (fst (read_frame un cc af true st b)) r end.
 
-Theorem C09_channel_never_raw : forall un af st before b c,
+Theorem C09_channel_never_raw : forall un cc af st before b c,
   f_mode st <> SNone ->
-  let st' := frames_state un af st before in
-  snd (read_frame un af true st' b) = Ok c ->
+  let st' := frames_state un cc af st before in
+  snd (read_frame un cc af true st' b) = Ok c ->
   exists h al mtv sig, chunk_decode b = Some h /\ candidate af st' b al /\
     zlen sig = a_rsl al /\ a_verify al mtv sig = true /\
     (mtv ++ sig = b \/ exists p, a_dec al (skipn (Z.to_nat (h_len h)) b) = Some p /\ mtv ++ sig = firstn (Z.to_nat (h_len h)) b ++ p).
 Proof.
-  intros un af st before. revert st. induction before as [|f r IH]; intros st b c Hm; cbn [frames_state].
-  - intros H. destruct (read_frame_secured un af st b c Hm H) as (h & al & pn & d & H1 & H2 & H3).
+  intros un cc af st before. revert st. induction before as [|f r IH]; intros st b c Hm; cbn [frames_state].
+  - intros H. destruct (read_frame_secured un cc af st b c Hm H) as (h & al & pn & d & H1 & H2 & H3).
     unfold verified_by in H3.
     assert (Hrsl : 0 <= a_rsl al \/ a_rsl al < 0) by lia. destruct Hrsl as [Hrsl|Hneg].
     + destruct (vd_authentic (a_dec al) (a_verify al) (a_rsl al) (a_lsl al) (f_mode st) pn Hrsl (h_asym h) (h_len h) (h_data h) b d
